@@ -3,8 +3,10 @@ import Model.ParArch
 /-!
 driver ops for the ParallelArchipelago protocol model (C12, parallel clause of C11)
 
-* `partrace ; <R> <sync> <target> [<archAge>] ; <initial ages> ; <event> ; <event> …`
-  replays the logged events of ONE `_non_blocking_execution` call through `ParArch.step`.
+* `partrace ; <R> <sync> <numSteps> ; <initial ages> ; <event> ; <event> …`
+  replays the logged events of ONE `_non_blocking_execution(numSteps)` call through `ParArch.step`
+  (the header has exactly three numbers: `comm_size`, `sync_frequency`, `num_steps`; the replay starts
+  with rank 0 before the first blocking `recv(source=1, AGE_UPDATE)` of its collecting loop).
   Events (one per `;` field):
     `e r k`            `island.evolve` slice finished on rank r, age grew by k
     `t r`              scheduling point inside `island.evolve`
@@ -20,7 +22,11 @@ driver ops for the ParallelArchipelago protocol model (C12, parallel clause of C
   `nonconforming idx=i …` (an `evolve` slice did not add exactly `sync` generations).
 * `parpartner ; <order…>`: `_get_migration_partner` for every rank.
 * `parexchange ; <order…> ; <island sizes…>`: all interleavings of the `sendrecv` exchange.
-* `parexplore ; R sync target depth [; ages]`: bounded exhaustive exploration of the model.
+* `parexplore ; R sync numSteps depth [; ages]`: bounded exhaustive exploration of the model.
+State rendering (`state=<…>`, `final=<…>`):
+  `pc=<pc0>|<pcH 1>|… ages=a0,a1,… table=t0,t1,… mbox=src:age,… exitQ=… arrived=… goal=<target_total_age>`
+  with `<pc0>` one of `collecting(k)`, `evolving`, `draining(q|-)`, `sendingExit(k)`, `atBarrier`,
+  `inBarrier`, `finalDrain(q|-)`, `done`.
 -/
 namespace Bingo
 namespace Drv.OpsParArch
@@ -31,6 +37,7 @@ def showOptNat : Option Nat → String
   | some n => toString n
 
 def showPc0 : Pc0 → String
+  | .collecting k => s!"collecting({k})"
   | .evolving => "evolving"
   | .draining p => s!"draining({showOptNat p})"
   | .sendingExit k => s!"sendingExit({k})"
@@ -64,7 +71,7 @@ def showState (s : State) : String :=
   let pcs := showPc0 s.pc0 :: (s.pcH.drop 1).map showPcH
   s!"pc={"|".intercalate pcs} ages={commas (s.ages.map toString)} table={commas (s.table.map showOptNat)} " ++
   s!"mbox={commas (s.mbox.map fun m => s!"{m.1}:{m.2}")} exitQ={commas (s.exitQ.map toString)} " ++
-  s!"arrived={commas (s.arrived.map fun b => if b then "1" else "0")}"
+  s!"arrived={commas (s.arrived.map fun b => if b then "1" else "0")} goal={s.goal}"
 
 def optNat? (none_ : String) (s : String) : Option (Option Nat) :=
   if s = none_ then some none else s.toNat?.map some
@@ -113,8 +120,7 @@ def handle : List String → Option String
     let h ← nats? hdr
     let a ← nats? ages
     let s0 ← match h with
-      | [R, sync, target] => some (initial R sync target a)
-      | [R, sync, target, arch] => some (initial R sync target a arch)
+      | [R, sync, numSteps] => some (initial R sync numSteps a)
       | _ => none
     if a.length != s0.R then some "bad-ages"
     else match firstBroken s0 with
@@ -137,8 +143,8 @@ def handle : List String → Option String
       | [a] => nats? a
       | _ => none
     match h with
-    | [R, sync, target, depth] =>
-      let st := explore R sync target depth ages
+    | [R, sync, numSteps, depth] =>
+      let st := explore R sync numSteps depth ages
       some (s!"states={st.states} transitions={st.transitions} deadlocks={st.deadlocks} finals={st.finals} " ++
         s!"unclean={st.uncleanFinals} badages={st.badAges} unsound={st.unsound} inconsistent={st.inconsistent} " ++
         s!"frontier={st.frontier}")
